@@ -248,6 +248,11 @@ def rc_rules(repo):
             out.append(violation("RC", fi, role, "tensor form reverses but does not complement: %s" % tb[-1], tarm[0]))
         elif any("[idxs]" in t for t in tb) and not any("flip" in t for t in tb):
             out.append(violation("RC", fi, role, "tensor form complements but does not reverse: %s" % tb[-1], tarm[0]))
+        elif any(isinstance(c_, ast.Call) and dotted(c_.func) in ("numpy.searchsorted", "torch.searchsorted", "bisect.bisect_left", "bisect.bisect")
+                 for s_ in tarm[0].body for c_ in ast.walk(s_)) and not any("sort" in t and "searchsorted" not in t for t in tb):
+            from ..core import named
+            out.append(named("RC", fi, role, "the row permutation is looked up with searchsorted / bisect on the map's keys, which is only an index lookup "
+                             "when the keys are in ascending order (the documented contract is the caller's key ORDER, e.g. A,T,C,G)", tarm[0]))
         elif any("dims=(0,)" in t or "dims=(-2,)" in t for t in tb):
             out.append(violation("RC", fi, role, "tensor form flips the alphabet axis instead of the position axis", tarm[0]))
         else:
